@@ -192,6 +192,13 @@ theorem vwcf_palette_position (w : Nat) (h : w < 65536) :
     have hc := this _ rfl
     cases hcl : specClass hi lo <;> simp_all [paletteOffset]
 
+/-- the palette naming of the code (generated DIR_PALETTE_NAMES + get_palette_name) is the spec's: stored `v ≤ 0` is built-in
+    number `v - 1` of the format notes' table, anything else is reported as its number -/
+theorem vwcf_palette_names (v : Int) : paletteName v = specPaletteName v := paletteName_eq_spec v
+
+example : specPaletteName 0 = "systemMac" ∧ specPaletteName (-1) = "rainbow" ∧ specPaletteName (-100) = "systemWinDir4" ∧
+    specPaletteName 17 = "17" ∧ specPaletteName (-50) = "-51" := by decide
+
 /-- a settings chunk of any length ≥ 80 with any field values decodes to its stage rectangle, cast range, frame rate,
     stage colour, version class of the stored word, and the name of the palette stored at the class's position -/
 theorem vwcf_roundtrip (s : VwcfSpec) (h : s.valid) : parseVwcf (encVwcf s) = .ok s.meaning :=
